@@ -1,6 +1,6 @@
 (* Statement pins for the updateio area: every property theorem re-stated in full. *)
 From FlacBase Require Import Res Bits.
-From FlacUpdIo Require Import GenUpd Update Update_proofs Props_C10 IoFault IoFault_proofs Props_C13.
+From FlacUpdIo Require Import GenUpd Update Update_proofs Instance Instance_proofs Props_C10 IoFault IoFault_proofs Props_C13 Par Par_proofs Props_C18.
 Open Scope N_scope.
 
 Check (C10_inplace :
@@ -98,6 +98,10 @@ Check (C10_no_panic :
       is_panic (read_blocks (skipn start file)) = false ->
       (forall bl, is_panic (edit bl) = false) ->
       is_panic (snd (update_file payload psize ser uclass read_blocks edit start file)) = false).
+Check (C10_hypotheses_satisfiable :
+  (forall p, lenN (i_ser p) = i_psize p) /\
+  (forall bl bytes rest, write_blocks ipayload i_psize i_ser i_uclass bl = Ok bytes ->
+                         i_read (bytes ++ rest) = Ok (bl, rest))).
 
 (* ---- C13 *)
 Check (C13_writer_ok_means_delivered :
@@ -146,3 +150,37 @@ Check (C13_read_errors_propagate :
      dev_read cap w = (IErr false, w1) -> fill_until (S fuel) cap need got w = (Err EIo, w1)) /\
   (forall fuel cap acc w w1,
      dev_read cap w = (IErr false, w1) -> read_to_end (S fuel) cap acc w = (Err EIo, w1))).
+
+(* ---- C18 *)
+Check (C18_fork_join_partial :
+  forall (C : Type) (sched : list nat) (rem : nat -> list (step C)) (st : nat -> C),
+    complete C sched rem st -> forall k, snd (exec C sched rem st) k = seq_result C rem st k).
+Check (C18_join :
+  forall (C : Type) (a b : list (step C)) (sched : list nat) (ca cb : C),
+    complete C sched (tasks2 C a b) (st2 C ca cb) -> join_par C a b sched ca cb = join_seq C a b ca cb).
+Check (C18_try_join :
+  forall (C A B : Type) (ra : C -> res A) (rb : C -> res B) (a b : list (step C)) (sched : list nat) (ca cb : C),
+    complete C sched (tasks2 C a b) (st2 C ca cb) ->
+    try_join_par ra rb a b sched ca cb = try_join_seq ra rb a b ca cb).
+Check (C18_vec_map :
+  forall (C : Type) (fs : list (list (step C))) (sched : list nat) (d : C) (cs : list C),
+    complete C sched (tasksn C fs) (stn C d cs) -> vec_map_par C fs sched d cs = vec_map_seq C fs d cs).
+Check (C18_encode_tasks :
+  forall (cache : Type) (written : cache -> N) (enc_fixed enc_lpc : list (step cache))
+         (inner : chan cache -> list nat) (outer : list nat) (d : chan cache) (cs : list (chan cache)),
+    (forall c, let '(cf, cl, _) := c in complete cache (inner c) (tasks2 cache enc_fixed enc_lpc) (st2 cache cf cl)) ->
+    complete (chan cache) outer (tasksn _ (map (fun _ => [chan_step cache written enc_fixed enc_lpc inner]) cs)) (stn _ d cs) ->
+    encode_channels_par cache written enc_fixed enc_lpc inner outer d cs = encode_channels_seq cache written enc_fixed enc_lpc d cs).
+Check (C18_correlate :
+  forall (cache : Type) (size : cache -> res N) (enc_l enc_r enc_a enc_d : list (step cache)) (s1 s2 : list nat)
+         (cl cr ca cd : cache),
+    complete cache s1 (tasks2 cache enc_l enc_r) (st2 cache cl cr) ->
+    complete cache s2 (tasks2 cache enc_a enc_d) (st2 cache ca cd) ->
+    correlate_par cache size enc_l enc_r enc_a enc_d s1 s2 cl cr ca cd = correlate_seq cache size enc_l enc_r enc_a enc_d cl cr ca cd).
+Check (C18_modulo_assumptions :
+  forall (input bytes cache : Type) (written : cache -> N) (enc_fixed enc_lpc : list (step cache))
+         (caches_of : input -> list (chan cache)) (d : chan cache) (assemble : list (chan cache) -> bytes)
+         (impl_seq : input -> bytes) (impl_par : nat -> nat -> input -> bytes),
+    tasks_are_disjoint_steps input bytes cache written enc_fixed enc_lpc caches_of d assemble impl_seq ->
+    rayon_is_fork_join input bytes cache written enc_fixed enc_lpc caches_of d assemble impl_par ->
+    C18_statement input bytes impl_seq impl_par).
